@@ -179,6 +179,8 @@ class Program:
                 if with_attrs and v.attrs:
                     a = "#[educe(%s)] " % ", ".join(v.attrs)
                 d = " = %d" % v.discr if v.discr is not None else ""
+                if v.sem.get("discr_src"):
+                    d = " = " + v.sem["discr_src"]
                 vs.append("    %s%s%s%s," % (a, v.name, self._variant_body(v, with_attrs, False), d))
             out.append("pub enum %s%s%s {\n%s\n}" % (self.name, g, wh, "\n".join(vs)))
         return "\n".join(out)
